@@ -141,42 +141,203 @@ pub fn props_from_lib(ps: &[Property]) -> Vec<Prop> {
     ps.iter().map(prop_from_lib).collect()
 }
 
+thread_local! {
+    /// 0: packets are built with one canonical sequence of builder calls. Non-zero: the order of the calls is permuted by
+    /// this seed and setters are called twice (a decoy value first) where the API lets a value be overwritten - the
+    /// resulting packet must not depend on how the application arrived at its field values
+    pub static BUILD_ORDER: std::cell::Cell<u64> = const { std::cell::Cell::new(0) };
+}
+/// sets BUILD_ORDER for the lifetime of the guard (reset to the canonical order on drop)
+pub struct BuildOrder;
+impl BuildOrder {
+    pub fn set(seed: u64) -> BuildOrder {
+        BUILD_ORDER.with(|c| c.set(seed));
+        BuildOrder
+    }
+}
+impl Drop for BuildOrder {
+    fn drop(&mut self) {
+        BUILD_ORDER.with(|c| c.set(0));
+    }
+}
+fn order_seed() -> u64 {
+    BUILD_ORDER.with(|c| c.get())
+}
+fn mix(seed: u64, k: u64) -> u64 {
+    let mut x = seed ^ k.wrapping_mul(0x9E37_79B9_7F4A_7C15);
+    x ^= x >> 31;
+    x = x.wrapping_mul(0xBF58_476D_1CE4_E5B9);
+    x ^ (x >> 29)
+}
+fn permutation(n: usize, seed: u64) -> Vec<usize> {
+    let mut v: Vec<usize> = (0..n).collect();
+    for i in (1..n).rev() {
+        let j = (mix(seed, i as u64) % (i as u64 + 1)) as usize;
+        v.swap(i, j);
+    }
+    v
+}
+fn rh_of(v: u8) -> mqtt::packet::RetainHandling {
+    match v {
+        0 => mqtt::packet::RetainHandling::SendRetained,
+        1 => mqtt::packet::RetainHandling::SendRetainedIfNotExists,
+        _ => mqtt::packet::RetainHandling::DoNotSendRetained,
+    }
+}
+
 fn subopts(o: u8) -> Result<SubOpts, BuildErr> {
-    lib(SubOpts::from_u8(o))
+    let seed = order_seed();
+    if seed == 0 || o & 0xC0 != 0 || (o >> 4) & 3 == 3 || o & 3 == 3 {
+        return lib(SubOpts::from_u8(o));
+    }
+    // the same options reached through the setters, in a permuted order, each preceded by a decoy value, starting from
+    // a fresh value or from some other valid byte
+    let seed = mix(seed, o as u64);
+    let mut x = if seed & 1 == 0 { SubOpts::new() } else { lib(SubOpts::from_u8([0x2Du8, 0x16, 0x08, 0x21][(seed >> 1) as usize % 4]))? };
+    for (n, k) in permutation(4, seed).into_iter().enumerate() {
+        let decoy = mix(seed, 100 + n as u64);
+        match k {
+            0 => {
+                if decoy & 1 == 0 {
+                    x = x.set_qos(qos(((o & 3) + 1 + (decoy >> 1) as u8 % 2) % 3)?);
+                }
+                x = x.set_qos(qos(o & 3)?);
+            }
+            1 => {
+                if decoy & 1 == 0 {
+                    x = x.set_nl(o & 4 == 0);
+                }
+                x = x.set_nl(o & 4 != 0);
+            }
+            2 => {
+                if decoy & 1 == 0 {
+                    x = x.set_rap(o & 8 == 0);
+                }
+                x = x.set_rap(o & 8 != 0);
+            }
+            _ => {
+                if decoy & 1 == 0 {
+                    x = x.set_rh(rh_of((((o >> 4) & 3) + 1 + (decoy >> 1) as u8 % 2) % 3));
+                }
+                x = x.set_rh(rh_of((o >> 4) & 3));
+            }
+        }
+    }
+    Ok(x)
 }
 
 /// Build the library packet for an abstract packet using only public builders.
 pub fn to_lib<P: Pid>(p: &Pkt) -> Result<GenericPacket<P>, BuildErr> {
     Ok(match p {
         Pkt::Connect { ver: Ver::V311, clean, keep_alive, client_id, will, user, pass, .. } => {
-            let mut b = lib(v3::Connect::builder().client_id(s(client_id)?))?.clean_session(*clean).keep_alive(*keep_alive);
-            if let Some(w) = will {
-                b = lib(b.will_message(s(&w.topic)?, w.payload.clone(), qos(w.qos)?, w.retain))?;
-            }
-            if let Some(u) = user {
-                b = lib(b.user_name(s(u)?))?;
-            }
-            if let Some(pw) = pass {
-                b = lib(b.password(pw.clone()))?;
+            let seed = order_seed();
+            let mut b = lib(v3::Connect::builder().client_id(s(client_id)?))?;
+            let order = if seed == 0 { vec![0, 1, 2, 3, 4] } else { permutation(5, seed) };
+            for (n, k) in order.into_iter().enumerate() {
+                let decoy = seed != 0 && mix(seed, 200 + n as u64) & 1 == 0;
+                match k {
+                    0 => {
+                        if decoy {
+                            b = b.clean_session(!*clean);
+                        }
+                        b = b.clean_session(*clean);
+                    }
+                    1 => {
+                        if decoy {
+                            b = b.keep_alive(*keep_alive ^ 0x5A5A);
+                        }
+                        b = b.keep_alive(*keep_alive);
+                    }
+                    2 => {
+                        if let Some(w) = will {
+                            if decoy {
+                                b = lib(b.will_message("decoy/topic", b"decoy".to_vec(), qos((w.qos + 1) % 3)?, !w.retain))?;
+                            }
+                            b = lib(b.will_message(s(&w.topic)?, w.payload.clone(), qos(w.qos)?, w.retain))?;
+                        }
+                    }
+                    3 => {
+                        if let Some(u) = user {
+                            if decoy {
+                                b = lib(b.user_name("decoy"))?;
+                            }
+                            b = lib(b.user_name(s(u)?))?;
+                        }
+                    }
+                    _ => {
+                        if let Some(pw) = pass {
+                            if decoy {
+                                b = lib(b.password(b"decoy".to_vec()))?;
+                            }
+                            b = lib(b.password(pw.clone()))?;
+                        }
+                    }
+                }
             }
             lib(b.build())?.into()
         }
         Pkt::Connect { ver: Ver::V5, clean, keep_alive, client_id, will, user, pass, props } => {
-            let mut b = lib(v5::Connect::builder().client_id(s(client_id)?))?.clean_start(*clean).keep_alive(*keep_alive);
-            if !props.is_empty() {
-                b = b.props(props_to_lib(props)?);
-            }
-            if let Some(w) = will {
-                b = lib(b.will_message(s(&w.topic)?, w.payload.clone(), qos(w.qos)?, w.retain))?;
-                if !w.props.is_empty() {
-                    b = b.will_props(props_to_lib(&w.props)?);
+            let seed = order_seed();
+            let mut b = lib(v5::Connect::builder().client_id(s(client_id)?))?;
+            let order = if seed == 0 { vec![0, 1, 5, 2, 6, 3, 4] } else { permutation(7, seed) };
+            for (n, k) in order.into_iter().enumerate() {
+                let decoy = seed != 0 && mix(seed, 300 + n as u64) & 1 == 0;
+                match k {
+                    0 => {
+                        if decoy {
+                            b = b.clean_start(!*clean);
+                        }
+                        b = b.clean_start(*clean);
+                    }
+                    1 => {
+                        if decoy {
+                            b = b.keep_alive(*keep_alive ^ 0x5A5A);
+                        }
+                        b = b.keep_alive(*keep_alive);
+                    }
+                    2 => {
+                        if let Some(w) = will {
+                            if decoy {
+                                b = lib(b.will_message("decoy/topic", b"decoy".to_vec(), qos((w.qos + 1) % 3)?, !w.retain))?;
+                            }
+                            b = lib(b.will_message(s(&w.topic)?, w.payload.clone(), qos(w.qos)?, w.retain))?;
+                        }
+                    }
+                    3 => {
+                        if let Some(u) = user {
+                            if decoy {
+                                b = lib(b.user_name("decoy"))?;
+                            }
+                            b = lib(b.user_name(s(u)?))?;
+                        }
+                    }
+                    4 => {
+                        if let Some(pw) = pass {
+                            if decoy {
+                                b = lib(b.password(b"decoy".to_vec()))?;
+                            }
+                            b = lib(b.password(pw.clone()))?;
+                        }
+                    }
+                    5 => {
+                        if !props.is_empty() {
+                            if decoy {
+                                b = b.props(vec![]);
+                            }
+                            b = b.props(props_to_lib(props)?);
+                        }
+                    }
+                    _ => {
+                        if let Some(w) = will {
+                            if !w.props.is_empty() {
+                                if decoy {
+                                    b = b.will_props(vec![]);
+                                }
+                                b = b.will_props(props_to_lib(&w.props)?);
+                            }
+                        }
+                    }
                 }
-            }
-            if let Some(u) = user {
-                b = lib(b.user_name(s(u)?))?;
-            }
-            if let Some(pw) = pass {
-                b = lib(b.password(pw.clone()))?;
             }
             lib(b.build())?.into()
         }
@@ -191,27 +352,96 @@ pub fn to_lib<P: Pid>(p: &Pkt) -> Result<GenericPacket<P>, BuildErr> {
             lib(b.build())?.into()
         }
         Pkt::Publish { ver: Ver::V311, dup, qos: q, retain, topic, id, payload, .. } => {
-            let mut b = lib(v3::GenericPublish::<P>::builder().topic_name(s(topic)?))?
-                .qos(qos(*q)?)
-                .dup(*dup)
-                .retain(*retain)
-                .payload(payload.clone());
-            if let Some(i) = id {
-                b = b.packet_id(P::from_u32(*i));
+            let seed = order_seed();
+            let mut b = lib(v3::GenericPublish::<P>::builder().topic_name(s(topic)?))?;
+            let order = if seed == 0 { vec![0, 1, 2, 3, 4] } else { permutation(5, seed) };
+            for (n, k) in order.into_iter().enumerate() {
+                let decoy = seed != 0 && mix(seed, 400 + n as u64) & 1 == 0;
+                match k {
+                    0 => {
+                        if decoy {
+                            b = b.qos(qos((*q + 1) % 3)?);
+                        }
+                        b = b.qos(qos(*q)?);
+                    }
+                    1 => {
+                        if decoy {
+                            b = b.dup(!*dup);
+                        }
+                        b = b.dup(*dup);
+                    }
+                    2 => {
+                        if decoy {
+                            b = b.retain(!*retain);
+                        }
+                        b = b.retain(*retain);
+                    }
+                    3 => {
+                        if decoy {
+                            b = b.payload(b"decoy".to_vec());
+                        }
+                        b = b.payload(payload.clone());
+                    }
+                    _ => {
+                        if let Some(i) = id {
+                            if decoy {
+                                b = b.packet_id(P::from_u32(i ^ 1));
+                            }
+                            b = b.packet_id(P::from_u32(*i));
+                        }
+                    }
+                }
             }
             lib(b.build())?.into()
         }
         Pkt::Publish { ver: Ver::V5, dup, qos: q, retain, topic, id, props, payload } => {
-            let mut b = lib(v5::GenericPublish::<P>::builder().topic_name(s(topic)?))?
-                .qos(qos(*q)?)
-                .dup(*dup)
-                .retain(*retain)
-                .payload(payload.clone());
-            if let Some(i) = id {
-                b = b.packet_id(P::from_u32(*i));
-            }
-            if !props.is_empty() {
-                b = b.props(props_to_lib(props)?);
+            let seed = order_seed();
+            let mut b = lib(v5::GenericPublish::<P>::builder().topic_name(s(topic)?))?;
+            let order = if seed == 0 { vec![0, 1, 2, 3, 4, 5] } else { permutation(6, seed) };
+            for (n, k) in order.into_iter().enumerate() {
+                let decoy = seed != 0 && mix(seed, 500 + n as u64) & 1 == 0;
+                match k {
+                    0 => {
+                        if decoy {
+                            b = b.qos(qos((*q + 1) % 3)?);
+                        }
+                        b = b.qos(qos(*q)?);
+                    }
+                    1 => {
+                        if decoy {
+                            b = b.dup(!*dup);
+                        }
+                        b = b.dup(*dup);
+                    }
+                    2 => {
+                        if decoy {
+                            b = b.retain(!*retain);
+                        }
+                        b = b.retain(*retain);
+                    }
+                    3 => {
+                        if decoy {
+                            b = b.payload(b"decoy".to_vec());
+                        }
+                        b = b.payload(payload.clone());
+                    }
+                    4 => {
+                        if let Some(i) = id {
+                            if decoy {
+                                b = b.packet_id(P::from_u32(i ^ 1));
+                            }
+                            b = b.packet_id(P::from_u32(*i));
+                        }
+                    }
+                    _ => {
+                        if !props.is_empty() {
+                            if decoy {
+                                b = b.props(vec![]);
+                            }
+                            b = b.props(props_to_lib(props)?);
+                        }
+                    }
+                }
             }
             lib(b.build())?.into()
         }
